@@ -27,42 +27,6 @@ import (
 	"github.com/WuKongIM/WuKongIM/pkg/verifkit"
 )
 
-const (
-	c29Normal = iota
-	c29Keyless
-	c29Invalid
-	c29NoAuth
-	c29Deny
-	c29Cancelled
-	c29Expired
-)
-
-var c29KindNames = []string{"normal", "keyless", "invalid", "noauth", "deny", "cancelled", "expired"}
-
-type c29Item struct {
-	Kind    int    `json:"kind"`
-	Ch      int    `json:"ch"`
-	From    string `json:"from"`
-	No      string `json:"no"`
-	Payload string `json:"payload"`
-}
-
-type c29Batch struct {
-	Prod   int
-	N      int
-	Phase  int
-	Call   int64
-	Ret    int64
-	DoneAt int64 // stamp taken when the results became known to the harness
-	Items  []c29Item
-	Res    []ca.SendBatchItemResult
-	Err    error // SubmitLocal error (local mode)
-	fut    *ca.Future
-	Done   bool
-	Fenced bool
-	Emits  []int // router SendBatchEach emit counts (nil when SendBatch was used)
-}
-
 type c29Cfg struct {
 	Mode       string    `json:"mode"`
 	Producers  int       `json:"producers"`
@@ -173,10 +137,6 @@ func (run *c29Run) toSend(it c29Item) ca.SendBatchItem {
 		item.Deadline = time.Unix(1, 0)
 	}
 	return item
-}
-
-func c29KeyedPayload(ch int, from, no string, variant int) string {
-	return fmt.Sprintf("ch%d|%s|%s|v%d", ch, from, no, variant)
 }
 
 // c29Producer generates and submits one producer's batches.
@@ -314,14 +274,6 @@ func (run *c29Run) await(b *c29Batch) {
 	b.DoneAt = run.clock.Tick()
 }
 
-func c29ResKeys(res []ca.SendBatchItemResult) []string {
-	out := make([]string, len(res))
-	for i, r := range res {
-		out[i] = fmt.Sprintf("%d/%d/%d/%v", r.Result.MessageID, r.Result.MessageSeq, r.Result.Reason, r.Err)
-	}
-	return out
-}
-
 func (run *c29Run) submitRouter(b *c29Batch, each bool) {
 	items := make([]ca.SendBatchItem, len(b.Items))
 	for i, it := range b.Items {
@@ -445,7 +397,7 @@ func TestVerifC29(t *testing.T) {
 	r.Assume("The store model reproduces the real storage contract: atomic batch, consecutive sequences, duplicate (FromUID, ClientMsgNo) rejects the whole batch with an ErrAppendFailed-class error, lookup compares the FNV-64a payload hash when the query carries one.")
 	r.Assume("Submission order between two sends is taken as defined only when they are in the same batch (same channel), or the earlier batch's SubmitLocal/SendBatch call returned before the later one was invoked (logical clock).")
 
-	nRuns := r.N(80, 1500)
+	nRuns := r.N(110, 1300)
 	for i := 0; i < nRuns; i++ {
 		if r.Skip(i) {
 			continue
